@@ -1088,6 +1088,13 @@ func (ctx Ctx) binExpr(e *ast.BinaryExpr) coq.Expr {
 		}
 		ok = true
 	}
+	switch e.Op {
+	case token.LSS, token.GTR, token.LEQ, token.GEQ:
+		// GooseLang orders integers only
+		if isString(ctx.typeOf(e.X)) || isString(ctx.typeOf(e.Y)) {
+			ctx.unsupported(e, "ordered comparison of strings")
+		}
+	}
 	if ok {
 		expr := coq.BinaryExpr{
 			X:  ctx.expr(e.X),
